@@ -8,5 +8,7 @@ CONSTANTS
   ServeFails = TRUE
   DeferUnreport = TRUE
   LockedAdd = FALSE
+  Counting = TRUE
+  TrackKey = "pair"
 INVARIANTS CountersBalanced
 CHECK_DEADLOCK FALSE
